@@ -48,7 +48,7 @@ impl Check for C17 {
     }
     fn rule(&self, tier: Tier) -> String {
         format!(
-            "{} || server seam: real Server, application threads with programs over {{recv, recv_timeout(T), try_recv, incoming_requests().next()}} (every single program and pair{}), connections {} with pipelined requests, {} unblock calls, receivers blocked first or racing; {} scenarios, strict bound {}; same oracles read through Server::verif_queue_snapshot (hook H5) || sequential family: EVERY sequence of {} operations over {{push, unblock, try_pop, pop_timeout(T), pop}} run by one thread ({} programs), with the queue's (requests, tokens) snapshot before and after every call: a call that returns empty-handed while a request is queued must have consumed exactly one token, requests come out in push order exactly once, try_pop enters no wait, pop_timeout bounds",
+            "{} || server seam: real Server, application threads with programs over {{recv, recv_timeout(T), try_recv, incoming_requests().next() on a fresh iterator, next() on one iterator kept across calls}} (every single program and pair{}), connections {} with pipelined requests, {} unblock calls, receivers blocked first or racing; {} scenarios, strict bound {}; same oracles read through Server::verif_queue_snapshot (hook H5) || sequential family: EVERY sequence of {} operations over {{push, unblock, try_pop, pop_timeout(T), pop}} run by one thread ({} programs), with the queue's (requests, tokens) snapshot before and after every call: a call that returns empty-handed while a request is queued must have consumed exactly one token, requests come out in push order exactly once, try_pop enters no wait, pop_timeout bounds",
             rule_text("C17", tier, scen(tier).len()),
             if tier == Tier::Thorough { " and one triple" } else { "" },
             if "C17" == "C07" { "[1] [2] [1,1] [2,1]" } else { "[] [1] [1,1]" },
